@@ -5,14 +5,18 @@ from sa.sym import Engine, show, show_cond, subterms, PathLimit, C
 from .common import *
 
 EXPLANATION = (
-    "Static clauses of 'undo restores the previous state': (R1) on every Ok path each move kind's apply performs "
-    "exactly one push on each of the en-passant, castle-rights and half-move stacks and one full-move increment, and "
-    "each undo exactly one pop of each and one decrement (effect summaries by path enumeration of the MIR with the "
-    "Board API opaque); (R2) per square, undo's put/remove sequence is the reverse of apply's with put and remove "
-    "exchanged and each piece put back comes from the matching source (mover, recorded capture, kind constant); "
-    "(R3) the position key is restored: every placement / rights / en-passant change toggles exactly the keys of the old and the new stack top with the values really on the stacks, on the push side and on the pop side alike (imports C05.R1-R3); (R4) every ChessMove::apply / toggle_turn on a board the function did not create is matched by undo / a second "
-    "toggle on every path to a return or loop head, except in the listed mutator roots. Bit-for-bit equality of "
-    "whole states over arbitrary histories is NOT decided; these are necessary conditions of it.")
+    "Static clauses of 'undo restores the previous state': (R1) on every Ok path each move kind's apply performs exactly one push on "
+    'each of the en-passant, castle-rights and half-move stacks and one full-move increment, and each undo exactly one pop of each and '
+    "one decrement (effect summaries by path enumeration of the MIR with the Board API opaque); (R2) per square, undo's put/remove "
+    "sequence is the reverse of apply's with put and remove exchanged and each piece put back comes from the matching source (mover, "
+    'recorded capture, kind constant); (R3) the position key is restored: every placement / rights / en-passant change toggles exactly '
+    'the keys of the old and the new stack top with the values really on the stacks, on the push side and on the pop side alike '
+    '(imports C05.R1-R3); (R4) every ChessMove::apply / toggle_turn on a board the function did not create is matched by undo / a '
+    'second toggle on every path to a return or loop head, except in the listed mutator roots. Bit-for-bit equality of whole states '
+    'over arbitrary histories is NOT decided; these are necessary conditions of it. R4 lets Game register the positions it reaches on '
+    "its own board (count / uncount_current_position); (R6) once a move's apply or undo reaches the occurrence counters, counting and "
+    'un-counting must be exact inverses (imports C17.R1).'
+)
 ASSUMPTIONS = [
     "rustc MIR construction and the chessfacts extractor are faithful",
     "paths are enumerated without a solver: infeasible paths are only pruned on contradictory tests of one atom",
@@ -463,9 +467,23 @@ def r3_key_restored(ctx):
                  'of keys (old top, new top) - also when the requested change is partly void (a right that is already lost)', floor=6)
 
 
+def r6_occurrence_table(ctx):
+    """On the pinned tree apply / undo leave the occurrence table alone (the game registers positions itself).  Once a move's apply
+    reaches count_current_position (repetition tracking wired into the moves), the table is part of what undo must restore: count and
+    uncount then have to be exact inverses at every nesting depth (C17.R1), like the other primitives of R5."""
+    facts = ctx.facts
+    reach = facts.reachable_fns([CHESSMOVE + '::apply', CHESSMOVE + '::undo'] + [k + '::apply' for k in KINDS.values()] + [k + '::undo' for k in KINDS.values()])
+    if not ({BOARD + '::count_current_position', BOARD + '::uncount_current_position'} & reach):
+        return
+    from . import c17
+    import_rules(ctx, 'C04.R6-occurrence-table', [c17.r1_inverse],
+                 'apply registers the position it reaches and undo releases it: undo restores the board only if un-counting is the exact inverse of counting')
+
+
 def run(ctx):
     r3_key_restored(ctx)
     r5_primitives(ctx)
+    r6_occurrence_table(ctx)
     r1_stack_balance(ctx)
     r2_mirror(ctx)
     r4_brackets(ctx)
